@@ -16,7 +16,7 @@ RULE = ('order harness: each CrossHair path decodes a function from U(K) with al
         'modifier applications (kwoargs / posoargs selections, autokwoargs, annotate) and a call shape with SYMBOLIC values; '
         'every permutation of the applications in which each step is admissible is built for real and compared. history '
         'harness: each path decodes a descriptor kind and a sequence of <=L operations over {retrieve on instance i, '
-        'retrieve on class, call on instance i, access twice, drop instance i + gc.collect()} on two instances; distinct = '
+        'retrieve on class, call on instance i, access twice, stack another modifier on the method, drop instance i + gc.collect()} on two instances; distinct = '
         'distinct rendered instance; non-trivial = at least two admissible orders / at least one operation checked')
 EXPLANATION = ('The solver enumerates the histories / decorator sets exhaustively within the bound; call results are compared on '
                'symbolic argument values (z3 validity). Reclamation is observed with weak references after gc.collect(), with '
@@ -141,6 +141,20 @@ class C(object):
         return ('m', self.tag, a) + self.target(*args, **kwargs)
 '''
 
+# the modifiers kind has a second convertible parameter so that a translator can be stacked on an existing one later
+_SRC_POK = '''
+from sigtools import modifiers
+
+class C(object):
+    def __init__(self, tag):
+        self.tag = tag
+    def target(self, x, y=2):
+        return ('target', self.tag, x, y)
+    DECO
+    def m(self, a, b=9, *args, **kwargs):
+        return ('m', self.tag, a, b) + self.target(*args, **kwargs)
+'''
+
 _DECOS = {
     'control': '_identity',
     'pok': "modifiers.kwoargs('a')",
@@ -151,9 +165,12 @@ _DECOS = {
 }
 
 
-def _make_class(kind):
+def _make_class(kind, stacked=False):
     import linecache
-    src = _SRC.replace('DECO', _DECOS[kind])
+    if kind == 'pok':
+        src = _SRC_POK.replace('DECO', ("@modifiers.kwoargs('b')\n    " if stacked else '') + "@modifiers.kwoargs('a')")
+    else:
+        src = _SRC.replace('DECO', _DECOS[kind])
     fname = '<symx-c18-%s>' % kind
     linecache.cache[fname] = (len(src), None, src.splitlines(True), fname)
     ns = {'__name__': 'c18_' + kind.replace('-', '_')}
@@ -161,14 +178,19 @@ def _make_class(kind):
     return ns['C']
 
 
-OPS = ('sig', 'call', 'twice', 'drop')
+OPS = ('sig', 'call', 'twice', 'drop', 'redecorate')
 
 
 def _call_args(kind):
     # m(self, a, *args, **kwargs) -> target(x, y=2); 'pok' makes a keyword-only
     if kind == 'pok':
-        return (7,), {'a': 5}
+        return (), {'a': 5, 'x': 7}
     return (5, 7), {}
+
+
+def _retag(ret, tag):
+    """Expected result for instance ``tag`` from the reference instance's (tag 9)."""
+    return tuple(tag if x == 9 and idx in (1, len(ret) - 3) else x for idx, x in enumerate(ret))
 
 
 def h_history(ctx, cfg):
@@ -186,19 +208,32 @@ def h_history(ctx, cfg):
     with sym.notrace():
         ctx.case('%s: %s' % (kind, ' '.join('%s%s' % (o, '' if i is None else i) for o, i in steps)), nontrivial=True)
         cls = _make_class(kind)
-        ref_cls = _make_class(kind)
-        ref_inst = ref_cls(9)
-        want_sig = str(sigtools.signature(ref_inst.m))
-        try:
-            want_cls_sig = str(sigtools.signature(ref_cls.m))
-        except Exception as e:
-            want_cls_sig = e
-        del ref_inst
+        refs_by_state = {}
+        for stacked in ((False, True) if kind == 'pok' else (False,)):
+            ref_cls = _make_class(kind, stacked)
+            ref_inst = ref_cls(9)
+            a0, k0 = _call_args(kind)
+            try:
+                cls_sig = str(sigtools.signature(ref_cls.m))
+            except Exception as e:
+                cls_sig = e
+            refs_by_state[stacked] = (str(sigtools.signature(ref_inst.m)), cls_sig, ref_inst.m(*a0, **k0))
+            del ref_inst
+        redecorated = False
+        want_sig, want_cls_sig, want_ret9 = refs_by_state[False]
         insts = {0: cls(0), 1: cls(1)}
         refs = dict((i, weakref.ref(o)) for i, o in insts.items())
     args, kwargs = _call_args(kind)
     for pos, (op, i) in enumerate(steps):
         info = lambda: dict(step=pos, op=op, inst=i, kind=kind)
+        if op == 'redecorate':
+            if kind != 'pok' or redecorated:
+                ctx.count('redecorate-skipped')
+                continue
+            cls.m = modifiers.kwoargs('b')(cls.__dict__['m'])
+            redecorated = True
+            want_sig, want_cls_sig, want_ret9 = refs_by_state[True]
+            continue
         if op == 'sigcls':
             try:
                 got = str(sigtools.signature(cls.m))
@@ -219,12 +254,12 @@ def h_history(ctx, cfg):
             ctx.require('retrieval-history-free', got == want_sig, lambda: dict(info(), got=got, want=want_sig))
         elif op == 'call':
             ret = insts[i].m(*args, **kwargs)
-            ctx.require('call-bound-to-right-instance', ret == ('m', i, 5, 'target', i, 7, 2),
+            ctx.require('call-bound-to-right-instance', ret == _retag(want_ret9, i),
                         lambda: dict(info(), got=repr(ret)))
         elif op == 'twice':
             b1 = insts[i].m; b2 = insts[i].m
             r1 = b1(*args, **kwargs); r2 = b2(*args, **kwargs)
-            ctx.require('repeated-binding-equal', r1 == r2 == ('m', i, 5, 'target', i, 7, 2) and
+            ctx.require('repeated-binding-equal', r1 == r2 == _retag(want_ret9, i) and
                         str(sigtools.signature(b1)) == str(sigtools.signature(b2)) == want_sig, info)
             del b1, b2, r1, r2
         else:
